@@ -45,8 +45,13 @@ fn truncate_str_impl<'a>(
     };
     let mut used = measure_text_width(&result_tail);
     let mut result = String::new();
+    // Once a grapheme did not fit, no later text may be added (only escape sequences).
+    let mut truncated = false;
     for (t, is_ansi) in items {
         if !is_ansi {
+            if truncated {
+                continue;
+            }
             for g in t.graphemes(true) {
                 let width_of_grapheme = g.width();
                 if used + width_of_grapheme > display_width {
@@ -65,6 +70,7 @@ fn truncate_str_impl<'a>(
                             }
                         }
                     }
+                    truncated = true;
                     break;
                 }
                 result.push_str(g);
